@@ -214,11 +214,11 @@ def require_coverage(res: TLCResult, actions: Iterable[str], what: str) -> None:
 
 
 def run_sharded(module: str, cfg_template: str, nshards: int, *, tag: str, timeout: int = 3600, heap: str = '2g',
-                extra: Sequence[str] = ()) -> List[TLCResult]:
+                extra: Sequence[str] = (), env: Optional[Dict[str, str]] = None) -> List[TLCResult]:
     """Run `nshards` single-worker TLC processes; cfg_template contains {shard} and {nshards}."""
     def one(i: int) -> TLCResult:
         return run_tlc(module, cfg_template.format(shard=i, nshards=nshards), workers=1, tag=f'{tag}-s{i}',
-                       timeout=timeout, heap=heap, extra=extra)
+                       timeout=timeout, heap=heap, extra=extra, env=env)
     with ThreadPoolExecutor(max_workers=min(nshards, NCPU)) as ex:
         return list(ex.map(one, range(nshards)))
 
